@@ -57,7 +57,8 @@ def applyTok (p : Parsed) (t : String) : Option Parsed :=
   | none => none
   | some (k, v) =>
     let i := p.inp
-    if k = "req" then
+    if k = "files" then some p
+    else if k = "req" then
       let (l, f) := match v with
         | "nolib" => (false, true) | "nofeat" => (true, false) | "none" => (false, false)
         | "onlylib" => (true, false) | "nolayers" => (false, true) | _ => (true, true)
@@ -194,6 +195,7 @@ def run (inp obs : List String) : Verdict :=
       let tags :=
         ["fmt" ++ toString fmt, if implOk then "ok" else "err"] ++
         (if unordered then ["unordered"] else []) ++
+        (toks.filterMap fun t => if t.startsWith "files=" then some "ordinary-ufo" else none) ++
         (if !i.reqLib then ["req-nolib"] else []) ++ (if !i.reqFeatures then ["req-nofeatures"] else []) ++
         (if i.hasLib then ["lib"] else []) ++ (if hintOn then ["hint"] else []) ++
         (if rf.feats.isSome then ["feats"] else []) ++
